@@ -716,6 +716,13 @@ func (vc *VC) execInstr(fr *Frame, in ssa.Instruction, st *State) {
 		fr.env[x] = v
 	case *ssa.ChangeType:
 		v := vc.operand(fr, x.X)
+		_, fromTP := types.Unalias(x.X.Type()).(*types.TypeParam)
+		_, toIface := x.Type().Underlying().(*types.Interface)
+		_, toTP := types.Unalias(x.Type()).(*types.TypeParam)
+		if fromTP && toIface && !toTP { // any(key) in a generic body: the opaque value is boxed
+			fr.env[x] = vc.makeIface(v, x.X.Type(), x.Type())
+			break
+		}
 		v.Typ = x.Type()
 		fr.env[x] = v
 	case *ssa.Convert:
@@ -1069,12 +1076,20 @@ func (vc *VC) eqTerm(l, r Val, t types.Type) string {
 }
 
 func (vc *VC) makeIface(v Val, from types.Type, to types.Type) Val {
-	if _, ok := from.Underlying().(*types.Interface); ok {
+	_, isTP := types.Unalias(from).(*types.TypeParam) // a type parameter's value is an opaque sort: it is boxed like any concrete value
+	if _, ok := from.Underlying().(*types.Interface); ok && !isTP {
 		v.Typ = to
 		return v
 	}
 	box, unbox := vc.boxFns(from)
 	inner := vc.valTerm(v)
+	if inner == "" {
+		// an interior pointer (address of a slice element / struct field) put into an interface: pointers into the middle
+		// of objects are not first-class in this memory model, the boxed value is an opaque non-nil pointer
+		inner = vc.freshConst("interiorptr", vc.sortOf(from))
+		vc.emit(fmt.Sprintf("(assert (> %s 0))", inner))
+		vc.note("an interior pointer stored into an interface value is opaque (writes through it are only modelled by the callee's modifies clause)")
+	}
 	inner = vc.define("boxed", vc.sortOf(from), inner)
 	term := fmt.Sprintf("(%s %s)", box, inner)
 	tag := vc.typeTag(from)
